@@ -15,6 +15,7 @@ import (
 	"sort"
 	"strings"
 	"sync"
+	"sync/atomic"
 	"time"
 )
 
@@ -142,6 +143,7 @@ func main() {
 		par = 1
 	}
 	var wg sync.WaitGroup
+	var hangs int32
 	sem := make(chan struct{}, par)
 	for i := range lines {
 		wg.Add(1)
@@ -149,6 +151,11 @@ func main() {
 		go func(i int) {
 			defer wg.Done()
 			defer func() { <-sem }()
+			// three cases lost to the watchdog are enough to report; the rest of the run is skipped (the abandoned
+			// goroutines of a library that spins would otherwise make every remaining case take the full limit)
+			if atomic.LoadInt32(&hangs) >= 3 {
+				return
+			}
 			t0 := time.Now()
 			// watchdog: a case that does not come back (a call of the library that blocks for ever) becomes the observation
 			// hang=watchdog instead of stalling the whole run; its goroutines are abandoned
@@ -163,6 +170,7 @@ func main() {
 			case r = <-ch:
 			case <-time.After(limit):
 				r = "hang=watchdog:" + limit.String()
+				atomic.AddInt32(&hangs, 1)
 				dumpOnce.Do(func() {
 					buf := make([]byte, 1<<20)
 					os.Stderr.Write(buf[:runtime.Stack(buf, true)])
@@ -184,6 +192,10 @@ func main() {
 	cw := bufio.NewWriterSize(cf, 1<<20)
 	iw := bufio.NewWriterSize(inf, 1<<20)
 	for i, l := range lines {
+		if results[i] == "" {
+			stats["skipped-after-hangs"]++
+			continue
+		}
 		cw.WriteString(l)
 		cw.WriteByte('\n')
 		fmt.Fprintf(iw, "id=%d %s\n", i+1, results[i])
